@@ -78,6 +78,19 @@ def pick_str(rng):
 NONPREF = ['SHA3-256', 'SSDEEP', 'SHA3-512', 'TLSH']
 
 
+# algorithms the library recognises but the 2.1 hash vocabulary does not list: custom content, kept under the CALLER's spelling
+NONVOCAB = {'SHA-384': (96, ['SHA-384', 'sha384', 'SHA384', 'sha-384']), 'SHA-224': (56, ['SHA-224', 'sha224', 'Sha-224']),
+            'RIPEMD-160': (40, ['RIPEMD-160', 'ripemd160', 'ripemd-160']), 'WHIRLPOOL': (128, ['WHIRLPOOL', 'whirlpool', 'Whirlpool'])}
+
+
+def gen_custom_hashes(rng):
+    out = {}
+    for a in rng.sample(sorted(NONVOCAB), rng.randrange(1, 3)):
+        n, spellings = NONVOCAB[a]
+        out[rng.choice(spellings)] = ''.join(rng.choice('0123456789abcdef') for _ in range(4)) * (n // 4)
+    return out
+
+
 def gen_hashes(rng):
     r = rng.random()
     if r < 0.15:
@@ -254,7 +267,13 @@ def gen_item(rng, n):
     c = {k: v for k, v in c.items() if (v != '' or (t, k) in (('email-message', 'subject'), ('email-message', 'body'), ('x-sim-obs-a', 'alpha'),
                                                               ('software', 'vendor'), ('software', 'version')))
          and v != [] and v != {}}
-    return {'type': t, 'c': c, 'nc': nc}
+    item = {'type': t, 'c': c, 'nc': nc}
+    if t in ('file', 'artifact', 'x509-certificate') and rng.random() < 0.12:
+        # only algorithms outside the vocabulary (allow_custom): the chosen one contributes under the spelling it was given in, whatever
+        # spelling of the same algorithm an earlier call of the process used
+        c['hashes'] = gen_custom_hashes(rng)
+        item['custom'] = True
+    return item
 
 
 HASH_SPELLINGS = {'MD5': ['md5', 'Md5'], 'SHA-1': ['sha1', 'sha-1', 'SHA1'], 'SHA-256': ['sha256', 'sha-256', 'SHA256'],
@@ -347,6 +366,8 @@ class C06(Profile):
                     twin['nc'] = dict(it['nc'])
                 if it['type'] == 'process':
                     twin['nc'] = dict(it['nc'], pid=it['nc']['pid'] + 1)
+                if it.get('custom'):
+                    twin['custom'] = True
                 items.append(twin)
             elif r < 0.4 and it['c']:
                 near = json.loads(json.dumps(it))
@@ -520,7 +541,8 @@ class C06(Profile):
         d = dict(type=t, spec_version='2.1', **props)
         cls = s.registry.class_for_type(t, '2.1', 'observables')
         route = op['route']
-        allow = t.startswith('x-')
+        allow = t.startswith('x-') or bool(it.get('custom'))
+        ac = {'allow_custom': True} if it.get('custom') else {}
         if route.startswith('kwargs') and op.get('perm', 0) % 3 == 0:
             # timestamps handed over as aware datetime objects of a zone with daylight saving time (same instants)
             for k2 in ('start', 'end', 'seen_ms', 'seen_any', 'date'):
@@ -536,26 +558,26 @@ class C06(Profile):
             elif route == 'kwargs_shuffled':
                 rng.shuffle(keys)
             kw = {k: props[k] for k in keys}
-            out = call(lambda: cls(**kw))
+            out = call(lambda: cls(**dict(kw, **ac)))
             obj = out.value if out.ok else None
         elif route == 'parse_dict_shuffled':
-            out = call(s.parse, shuffle_rec(d, rng), version='2.1')
+            out = call(s.parse, shuffle_rec(d, rng), version='2.1', **ac)
             obj = out.value if out.ok else None
         elif route == 'parse_text':
-            out = call(s.parse, json.dumps(shuffle_rec(d, rng), ensure_ascii=bool(op['perm'] % 2)))
+            out = call(s.parse, json.dumps(shuffle_rec(d, rng), ensure_ascii=bool(op['perm'] % 2)), **ac)
             obj = out.value if out.ok else None
         elif route == 'reserialize_drop_id':
-            out = call(lambda: cls(**props))
+            out = call(lambda: cls(**dict(props, **ac)))
             obj = None
             if out.ok:
                 j = json.loads(out.value.serialize())
                 first_id = j.pop('id')
-                out = call(s.parse, j)
+                out = call(s.parse, j, **ac)
                 obj = out.value if out.ok else None
                 if obj is not None and obj['id'] != first_id and expected_canonical(it) is not None:
                     raise Violation('id-invariant', 'C06.id-changed-on-roundtrip/%s' % t, dict(first=first_id, second=obj['id']))
         elif route == 'deepcopy':
-            out = call(lambda: cls(**props))
+            out = call(lambda: cls(**dict(props, **ac)))
             obj = None
             if out.ok:
                 first_id = out.value['id']
@@ -568,7 +590,7 @@ class C06(Profile):
             out = call(lambda: s.v21.Bundle(objects=[shuffle_rec(d, rng)], allow_custom=allow))
             obj = out.value['objects'][0] if out.ok else None
         elif route == 'parse_observable':
-            out = call(s.parse_observable, shuffle_rec(d, rng), version='2.1')
+            out = call(s.parse_observable, shuffle_rec(d, rng), version='2.1', **ac)
             obj = out.value if out.ok else None
         else:
             world.probe('route_memory_store')
